@@ -202,6 +202,44 @@ func syncGen(r *Rng, tier string, emit func(string)) {
 			}
 		}
 		deliver(pool)
+		// crafted messages around the follower's current head: known blocks repeated or out of order in
+		// front of new ones, a known block followed by a gap, a single new block behind a known one
+		if hs, ok, _ := g.node("F").v.HeadBkSeq(); ok && hs >= 1 && int(hs) < len(chain) {
+			h := int(hs) // chain[i] has seq i+1, so chain[h-1] is the head, chain[h] the next block
+			blk := func(seq int) coin.SignedBlock { return chain[seq-1] }
+			var msgs [][]coin.SignedBlock
+			switch r.Intn(4) {
+			case 0: // duplicate of a known block first
+				m := []coin.SignedBlock{blk(h), blk(h)}
+				for q := h + 1; q <= len(chain) && q <= h+3; q++ {
+					m = append(m, blk(q))
+				}
+				msgs = append(msgs, m)
+			case 1: // known blocks out of order first
+				if h >= 2 {
+					m := []coin.SignedBlock{blk(h), blk(h - 1)}
+					for q := h + 1; q <= len(chain) && q <= h+3; q++ {
+						m = append(m, blk(q))
+					}
+					msgs = append(msgs, m)
+				}
+			case 2: // an old block, then the next one
+				msgs = append(msgs, []coin.SignedBlock{blk(1), blk(h + 1)})
+			case 3: // next block twice, then the one after
+				m := []coin.SignedBlock{blk(h + 1), blk(h + 1)}
+				if h+2 <= len(chain) {
+					m = append(m, blk(h+2))
+				}
+				msgs = append(msgs, m)
+			}
+			for _, m := range msgs {
+				hx := make([]string, len(m))
+				for i := range m {
+					hx[i] = encodeBlock(&m[i])
+				}
+				emit("give F " + strings.Join(hx, ","))
+			}
+		}
 		if r.Chance(50) { // a later complete in-order delivery: the follower must then reach the publisher's head
 			deliver(chain)
 		}
